@@ -232,6 +232,69 @@ pub fn run(opts: &Opts, out: &mut dyn Write) {
             reqs += 1;
         }
     }
+    // 3. the primitives the transactions call directly (`open` for the source and destination names, `get_size`,
+    // `open` for reading, the single-name primitives behind the requests): implementation-level only (no op line, the
+    // model has no such operations) - whatever name they are given, nothing next to the root changes and nothing next to
+    // the root is read.  More names that climb out of the root than the requests above use.
+    let mut prims = 0u64;
+    {
+        use std::io::Read;
+        let climbing: Vec<&str> = vec!["../planted", "./../planted", "d/../../planted", "d/../../sentinel", "../sentinel", "../rx/y", "../rx/new", "e/../../rx/y", "..", "../", "ROOT/../planted", "ROOT/../sentinel", "a/../../sentinel", "./../rx", "../rx"];
+        let all: Vec<&str> = names.iter().cloned().chain(climbing.iter().cloned()).collect();
+        for name in &all {
+            for prim in 0..8u8 {
+                let c = Case::new(&base);
+                let real = match name.strip_prefix("ROOT") {
+                    Some(rest) => Utf8PathBuf::from(format!("{}{}", c.root, rest)),
+                    None => Utf8PathBuf::from(*name),
+                };
+                let what = match prim {
+                    0 => "open(create, write)",
+                    1 => "open(create, truncate, write)",
+                    2 => "open(read)",
+                    3 => "get_size",
+                    4 => "create_file",
+                    5 => "delete_file",
+                    6 => "create_directory",
+                    _ => "remove_directory",
+                };
+                let mut leaked: Option<Vec<u8>> = None;
+                let r = std::panic::catch_unwind(std::panic::AssertUnwindSafe(|| match prim {
+                    0 => c.store.open(&real, std::fs::OpenOptions::new().create(true).write(true)).map(|mut f| {
+                        let _ = f.write_all(b"W");
+                    }).is_ok(),
+                    1 => c.store.open(&real, std::fs::OpenOptions::new().create(true).truncate(true).write(true)).map(|_| ()).is_ok(),
+                    2 => match c.store.open(&real, std::fs::OpenOptions::new().read(true)) {
+                        Ok(mut f) => {
+                            let mut b = vec![];
+                            let _ = f.read_to_end(&mut b);
+                            leaked = Some(b);
+                            true
+                        }
+                        Err(_) => false,
+                    },
+                    3 => c.store.get_size(&real).is_ok(),
+                    4 => c.store.create_file(&real).is_ok(),
+                    5 => c.store.delete_file(&real).is_ok(),
+                    6 => c.store.create_directory(&real).is_ok(),
+                    _ => c.store.remove_directory(&real).is_ok(),
+                }));
+                prims += 1;
+                let after = outside_listing(&c.base);
+                if after != c.outside {
+                    viol += 1;
+                    oracle(out, "C12", "primitive_contained", &format!("{} of `{}` changed what lies next to the filestore root: `{}` -> `{}` (result: {:?})", what, name, c.outside, after, r.as_ref().ok()));
+                }
+                // the neighbours hold `S` and `Y`; inside the root no file has that content
+                if let Some(b) = leaked {
+                    if b == b"S" || b == b"Y" {
+                        viol += 1;
+                        oracle(out, "C12", "primitive_contained", &format!("open(read) of `{}` returned the content of a file next to the filestore root", name));
+                    }
+                }
+            }
+        }
+    }
     let _ = &mut by_status;
-    stat(out, &format!("engine=fs cases={} requests={} oracle_violations={}", cases, reqs, viol));
+    stat(out, &format!("engine=fs cases={} requests={} primitives={} oracle_violations={}", cases, reqs, prims, viol));
 }
